@@ -232,6 +232,11 @@ class CallMixin:
         if m is not None:
             yield from m(st, args, kw, node)
             return
+        bcon = REG.contracts.get(f"builtins:{name}")
+        if bcon is not None and not self.spec:
+            # a builtin with an assumed contract (exec, compile, ...)
+            yield from self.call_by_contract(st, bcon, None, "builtins", None, bcon.target, args, kw, None, node)
+            return
         if name in REG.predicates and self.spec:
             p = REG.predicates[name]
             if len(args) != len(p.params):
